@@ -112,14 +112,40 @@ def exc_reason(e):
         return FALLBACK_REASON
 
 
-def exc_extra(e):
-    """Fields of the extractor registered for the nearest class in the MRO
-    (the interpreter registers one for AppBase; eliot ships one for OSError)."""
-    if isinstance(e, OSError):
-        return {"errno": e.errno}
-    if isinstance(e, AppBase):
-        return {"code": e.code, "kind": "app"}
-    return {}
+class ExtractorBoom(Exception):
+    pass
+
+
+def _x_leaf(e):
+    return {"code": e.code, "who": "leaf"}
+
+
+def _x_mid(e):
+    return {"who": "mid"}
+
+
+def _x_base(e):
+    return {"code": e.code, "kind": "app"}
+
+
+def _x_raise(e):
+    raise ExtractorBoom("extractor failed")
+
+
+_X_FUNCS = {AppLeaf: _x_leaf, AppMid: _x_mid, AppBase: _x_base}
+
+
+def extractor_config(index):
+    """index in 0..26 -> {class: "dict"|"raise"} for (AppLeaf, AppMid, AppBase);
+    the default (index 2) registers only AppBase, returning a dict."""
+    cfg = {}
+    digits = [(index // 9) % 3, (index // 3) % 3, index % 3]
+    for cls, d in zip((AppLeaf, AppMid, AppBase), digits):
+        if d == 2:
+            cfg[cls] = "dict"
+        elif d == 1:
+            cfg[cls] = "raise"
+    return cfg
 
 
 def _ser(v):
@@ -199,7 +225,25 @@ class Interp(object):
         self.n_msgs = 0
         self.n_handoffs = 0
         self.ops = []  # rendered op sequence
-        register_exception_extractor(AppBase, lambda e: {"code": e.code, "kind": "app"})
+        self.xcfg = extractor_config(int(self.shard.get("ext", 2)))
+        for cls, how in self.xcfg.items():
+            register_exception_extractor(cls, _X_FUNCS[cls] if how == "dict" else _x_raise)
+
+    def exc_extra(self, e):
+        """(fields of the extractor registered for the nearest class in the MRO,
+        whether that extractor raises)."""
+        for klass in type(e).__mro__:
+            if klass in self.xcfg:
+                if self.xcfg[klass] == "raise":
+                    return {}, True
+                return _X_FUNCS[klass](e), False
+            if klass is OSError:
+                return {"errno": e.errno}, False
+        return {}, False
+
+    def _extractor_traceback_ref(self):
+        boom = ExtractorBoom("extractor failed")
+        return RefMessage("eliot:traceback", {"reason": "extractor failed", "exception": exc_name(boom)}, traceback_of=boom)
 
     # -- hooks ---------------------------------------------------------------
     def on_enter(self, ref, action):
@@ -300,9 +344,12 @@ class Interp(object):
         else:
             self.n += 1
             e = _mk_exc(self.style("exc", N_EXC) if self.shard.get("tb_exc", True) else 0, self.n)
-            fields = dict(exc_extra(e))
+            fields, boom = self.exc_extra(e)
+            fields = dict(fields)
             fields.update(reason=exc_reason(e), exception=exc_name(e))
             ref = RefMessage("eliot:traceback", fields, traceback_of=e)
+            if boom:
+                self._attach(self._extractor_traceback_ref())
             self._attach(ref)
             try:
                 raise e
@@ -318,13 +365,23 @@ class Interp(object):
         ref.status = "succeeded"
         ref.end_fields = fields
 
-    def _close_failed(self, ref, e):
+    def _close_failed(self, ref, e, contextless=False):
+        """Called outside the failed action, i.e. in the context finish() ran in."""
         ref.status = "failed"
         ref.exc = e
-        f = dict(exc_extra(e))
+        f, boom = self.exc_extra(e)
+        f = dict(f)
         f.update(exception=exc_name(e), reason=exc_reason(e))
         ref.end_fields = f
         self.n_failed += 1
+        if boom:
+            # the extractor's own failure is logged as a traceback in the context
+            # where finish() was called (the enclosing action, or none)
+            self.n_msgs += 1
+            if contextless:
+                self.forest.append(self._extractor_traceback_ref())
+            else:
+                self._attach(self._extractor_traceback_ref())
 
     def _body(self, ref, action, depth):
         """Runs the nested block with ``action`` expected to be current."""
@@ -458,6 +515,7 @@ class Interp(object):
             if not verdict:
                 raise
             return
+        ctx.check(ref.status is not None, "the block of %s (style %d) was left by an exception but nothing propagated to the caller (program %s)", ref.type, st, self.render())
         self._after_block(ref, action, before, fin, None)
 
     def _after_block(self, ref, action, before, fin, err):
@@ -513,7 +571,7 @@ class Interp(object):
             verdict = self._caught(e)
             if verdict is None:
                 raise
-            self._close_failed(ref, e)
+            self._close_failed(ref, e, contextless=True)
             self.ops.append(")!")
             if not verdict:
                 raise
